@@ -1151,3 +1151,152 @@ Section Instances.
     - exists None. now apply lookup_none_walk.
   Qed.
 End Instances.
+
+(* ====================================================================================================
+   Panics: the only panic of a path walk is "-" (PLast) on an empty or null sequence
+   ==================================================================================================== *)
+Lemma walk_last_on_empty {A} cr ps (k : node -> res (node * A)) : walk cr (PLast :: ps) k (Seq []) = Panic.
+Proof. reflexivity. Qed.
+
+Lemma walk_last_on_null {A} cr ps (k : node -> res (node * A)) s v :
+  walk cr (PLast :: ps) k (Scalar TNull s v) = Panic.
+Proof. reflexivity. Qed.
+
+Lemma child_last_none es : child PLast (Seq es) = None -> es = [].
+Proof.
+  destruct es as [|e es]; [reflexivity|]. cbn [child]. intros H.
+  apply nth_error_None in H. cbn in H. lia.
+Qed.
+
+Lemma lookup_panic_char ps :
+  forall n, lookup ps n = Panic ->
+  exists ps1 ps2 x, ps = (ps1 ++ PLast :: ps2)%list /\ lookup ps1 n = Ok (Some x) /\ (x = Seq [] \/ is_null x = true).
+Proof.
+  induction ps as [|p ps IH]; intros n H; [discriminate|].
+  destruct (child p n) as [y|] eqn:C.
+  - rewrite (lookup_found _ _ _ _ C) in H.
+    destruct (IH _ H) as (ps1 & ps2 & x & -> & L & Hx).
+    exists (p :: ps1), ps2, x. repeat split; auto. cbn [app]. now rewrite (lookup_found _ _ _ _ C).
+  - unfold lookup in H. rewrite (walk_missing_nocreate _ _ _ _ C) in H.
+    destruct p; destruct n as [t s v0|kvs|es]; cbn in H; try discriminate;
+      try (destruct t; discriminate).
+    + exists [], ps, (Scalar t s v0). repeat split; auto. right. destruct t; try discriminate; reflexivity.
+    + exists [], ps, (Seq es). repeat split; auto. left. now rewrite (child_last_none _ C).
+Qed.
+
+Fixpoint has_last (ps : list part) : bool :=
+  match ps with [] => false | PLast :: _ => true | _ :: t => has_last t end.
+
+Lemma walk_no_panic {A} cr ps (k : node -> res (node * A)) :
+  has_last ps = false -> (forall x, k x <> Panic) -> forall n, walk cr ps k n <> Panic.
+Proof.
+  intros HL HK. induction ps as [|p ps IH]; intros n H.
+  - cbn in H. specialize (HK n). destruct (k n) as [[? ?]| | |]; cbn in H; congruence.
+  - assert (HL' : has_last ps = false) by (destruct p; cbn in HL; auto; discriminate).
+    specialize (IH HL').
+    destruct (child p n) as [x|] eqn:C.
+    + rewrite (walk_found _ _ _ _ _ _ C) in H. specialize (IH x).
+      destruct (walk cr ps k x) as [[? ?]| | |]; cbn in H; congruence.
+    + destruct cr as [leaf|].
+      2:{ rewrite (walk_missing_nocreate _ _ _ _ C) in H.
+          destruct p; destruct n as [t s v0|kvs|es]; cbn in H, HL; try discriminate;
+            try (destruct t; discriminate). }
+      destruct p; destruct n as [t s v0|kvs|es]; cbn in C, H, HL; try discriminate;
+        try (destruct t; discriminate).
+      all: try (rewrite C in H; try discriminate).
+      all: try (destruct t; try discriminate).
+      all: try (destruct (find_index (sel_match nm v) es) as [i|] eqn:F; [rewrite C in H; discriminate|]).
+      all: match type of H with
+           | bind (walk _ _ _ ?f) _ = Panic => specialize (IH f);
+               destruct (walk (Some leaf) ps k f) as [[? ?]| | |]; cbn in H; congruence
+           end.
+Qed.
+
+(* ====================================================================================================
+   Non-vacuity examples, and witnesses showing that the hypotheses H1 / H2 cannot be dropped
+   ==================================================================================================== *)
+Section Examples.
+  Let ns : string -> bool := fun _ => false.
+  Let str (s : string) := Scalar TStr SPlain s.
+  (* containers: [{name: x, image: i}] ; meta: {} ; a: null ; l: [] *)
+  Let doc : node :=
+    Map [("containers", Seq [Map [("name", str "x"); ("image", str "i")]; Map [("name", str "y")]]);
+         ("meta", Map []); ("a", Scalar TNull SPlain "null"); ("l", Seq [])].
+  Let p1 := [PKey "containers"; PSel "name" "x"].
+
+  (* a write through an existing selector, and one that creates the element: hypotheses hold, path found *)
+  Example ex_put_hyps :
+    stable_put p1 "image" = true /\ no_null_path p1 doc = true /\
+    exists n', put ns p1 "image" (str "j") doc = Ok (n', Some tt) /\
+               lookup (p1 ++ [PKey "image"]) n' = Ok (Some (str "j")).
+  Proof. vm_compute. repeat split; eauto. Qed.
+
+  Example ex_put_creates :
+    let p := [PKey "meta"; PKey "labels"] in
+    stable_put p "app" = true /\ no_null_path p doc = true /\
+    exists n', put ns p "app" (str "z") doc = Ok (n', Some tt) /\
+               lookup (p ++ [PKey "app"]) n' = Ok (Some (str "z")).
+  Proof. vm_compute. repeat split; eauto. Qed.
+
+  Example ex_put_creates_element :
+    let p := [PKey "containers"; PSel "name" "z"] in
+    stable_put p "image" = true /\ no_null_path p doc = true /\
+    exists n', put ns p "image" (str "k") doc = Ok (n', Some tt) /\
+               lookup (p ++ [PKey "image"]) n' = Ok (Some (str "k")).
+  Proof. vm_compute. repeat split; eauto. Qed.
+
+  Example ex_diverges :
+    diverges (p1 ++ [PKey "image"]) [PKey "containers"; PSel "name" "y"; PKey "name"] /\
+    diverges (p1 ++ [PKey "image"]) [PKey "containers"; PSel "name" "x"; PKey "name"] /\
+    diverges (p1 ++ [PKey "image"]) [PKey "meta"].
+  Proof.
+    repeat split.
+    - apply div_later, div_here, apart_sel. discriminate.
+    - apply div_later, div_later, div_here, apart_key. discriminate.
+    - apply div_here, apart_key. discriminate.
+  Qed.
+
+  (* H1 cannot be dropped: overwriting the key a selector matches on loses the element for that selector *)
+  Lemma put_get_needs_stable :
+    exists ps name v n n',
+      is_null v = false /\ no_null_path ps n = true /\ put ns ps name v n = Ok (n', Some tt) /\
+      lookup (ps ++ [PKey name]) n' = Ok None.
+  Proof.
+    exists p1, "name", (str "q"), doc. eexists. vm_compute. repeat split.
+  Qed.
+
+  (* H2 cannot be dropped: a write through a null node reports success and is lost *)
+  Lemma put_get_needs_no_null :
+    exists ps name v n n',
+      is_null v = false /\ stable_put ps name = true /\ put ns ps name v n = Ok (n', Some tt) /\
+      lookup (ps ++ [PKey name]) n' = Ok None /\ n' = n.
+  Proof.
+    exists [PKey "a"], "b", (str "q"), doc. eexists. vm_compute. repeat split.
+  Qed.
+
+  (* a selector element appended to a null "sequence" is lost as well *)
+  Lemma put_get_needs_no_null_sel :
+    exists ps name v n n',
+      is_null v = false /\ stable_put ps name = true /\ put ns ps name v n = Ok (n', Some tt) /\
+      lookup (ps ++ [PKey name]) n' = Ok None /\ n' = n.
+  Proof.
+    exists [PKey "a"; PSel "name" "x"], "b", (str "q"), doc. eexists. vm_compute. repeat split.
+  Qed.
+
+  (* the frame side condition cannot be dropped: appending the element [name=z] creates its name field *)
+  Lemma frame_needs_side_condition :
+    exists ps name v qs n n',
+      stable_put ps name = true /\ diverges (ps ++ [PKey name]) qs /\
+      put ns ps name v n = Ok (n', Some tt) /\ lookup qs n = Ok None /\ lookup qs n' <> Ok None.
+  Proof.
+    exists [PKey "containers"; PSel "name" "z"], "image", (str "k"),
+           [PKey "containers"; PSel "name" "z"; PKey "name"], doc. eexists.
+    split; [reflexivity|]. split.
+    - apply div_later, div_later, div_here, apart_key. discriminate.
+    - vm_compute. repeat split. discriminate.
+  Qed.
+
+  (* "-" on an empty list panics (kyaml: elems[len(elems)-1] with len 0) *)
+  Lemma last_on_empty_panics : lookup [PKey "l"; PLast] doc = Panic.
+  Proof. reflexivity. Qed.
+End Examples.
